@@ -33,8 +33,9 @@ def path_condition(node, stop=None):
     out = []
     cur = au.enclosing_stmt(node)
     # expression-level guards (IfExp / comprehension ifs) between node and its statement
-    for t, pol in au.guards(node, stop=cur):
-        out.append((t, pol, node))
+    if cur is not node:
+        for t, pol in au.guards(node, stop=cur):
+            out.append((t, pol, node))
     while cur is not None and cur is not stop and not isinstance(cur, (ast.FunctionDef, ast.AsyncFunctionDef, ast.Module)):
         blk, owner = au.enclosing_block(cur)
         if blk is None:
@@ -139,25 +140,6 @@ def sym_of_name(n):
     if isinstance(n, ast.Name):
         return n.id
     raise order.Unsupported(au.src(n))
-
-
-def fold_constants_in(e):
-    """Replace every maximal constant-foldable sub-expression by a rounded Constant."""
-    class T(ast.NodeTransformer):
-        def generic_visit(self, node):
-            if isinstance(node, ast.expr):
-                v = rounded_const(node)
-                if v is not None and not (isinstance(node, ast.Constant)):
-                    return ast.Constant(value=v)
-            return super().generic_visit(node)
-
-        def visit(self, node):
-            if isinstance(node, ast.expr) and not isinstance(node, ast.Constant):
-                v = rounded_const(node)
-                if v is not None:
-                    return ast.Constant(value=v)
-            return super().visit(node)
-    return T().visit(copy.deepcopy(e))
 
 
 def compare(code_expr, spec_src):
@@ -279,6 +261,8 @@ def increments(st, var):
             return k if isinstance(st.op, ast.Add) else -k
         return "?"
     if isinstance(st, ast.Assign) and len(st.targets) == 1 and is_name(st.targets[0], var):
+        if var not in au.names(st.value):
+            return None
         try:
             p = sym.to_poly(st.value, opaque=False)
         except sym.NotPoly:
@@ -301,3 +285,34 @@ def loop_ancestors(node, stop=None):
         if isinstance(a, (ast.FunctionDef, ast.AsyncFunctionDef)):
             break
     return out
+
+
+def increments_in(loop, var):
+    return any(increments(s, var) is not None for s in au.stmts(loop.body))
+
+
+def top_stmt_in(body, node):
+    """the direct statement of `body` that contains (or is) `node`"""
+    cur = node
+    while cur is not None:
+        if any(cur is s for s in body):
+            return cur
+        cur = au.parent(cur)
+    return None
+
+
+class Floor:
+    """require_count that counts reported failures as located sites: the floor only guards against a
+    matcher that silently finds nothing (a reported finding already makes the run non-passing)."""
+
+    def __init__(self, ctx, rule):
+        self.ctx, self.rule = ctx, rule
+        self.n0 = ctx.instances.get(rule, 0)
+        self.f0 = len(ctx.findings)
+
+    def require(self, at_least, label=None):
+        n = self.ctx.instances.get(self.rule, 0) - self.n0
+        nf = len(self.ctx.findings) - self.f0   # any finding: the run is already non-passing
+        if nf == 0:
+            self.ctx.require_count(label or (self.rule + " obligations"), n, at_least)
+        return n
